@@ -40,6 +40,11 @@ class U:
         return 'U(%r)#%x' % (s.v, id(s) & 0xfff)
 
 
+class FU(U):            # hashable and falsy
+    def __bool__(s):
+        return False
+
+
 CALLS = []
 
 
@@ -71,13 +76,13 @@ def play(steps):
 
 def _play(steps, ev):
     c = Components()
-    comps = [U(0), U(0), U(1), UL([1]), UL([1]), UL([2])]
+    comps = [U(0), U(0), U(1), UL([1]), UL([1]), UL([2]), UL([]), FU(7)]      # the last two are falsy
     Uref, Aref, Sref, Href = {}, {}, [], []
     bad = []
     knowns = []
     n = 0
     for si, (op, ci, pi, ni, ii, ri, usei) in enumerate(steps):
-        comp = comps[ci % 6]
+        comp = comps[ci % len(comps)]
         p = (I, J)[pi % 2]
         nm = ('', 'a')[ni % 2]
         info = ('', 'i')[ii % 2]
@@ -228,7 +233,7 @@ def _play(steps, ev):
 
 def random_steps(rnd):
     # few keys so that replacements and removals meet earlier registrations
-    return tuple((rnd.choice(OPS), rnd.randrange(6), rnd.randrange(2), rnd.randrange(2), rnd.randrange(2), rnd.randrange(3), rnd.randrange(2))
+    return tuple((rnd.choice(OPS), rnd.randrange(8), rnd.randrange(2), rnd.randrange(2), rnd.randrange(2), rnd.randrange(3), rnd.randrange(2))
                  for _ in range(rnd.randint(1, 8)))
 
 
@@ -241,7 +246,7 @@ def replay(steps):
 
 def run(ctx):
     ctx.rule = ('random histories of <=8 calls over the eight register/unregister methods plus re-initialisation, components '
-                'drawn from {hashable equal pair, hashable other, unhashable equal pair, unhashable other}, 2 related provided '
+                'drawn from {hashable equal pair, hashable other, unhashable equal pair, unhashable other, falsy unhashable, falsy hashable}, 2 related provided '
                 'interfaces, 2 names, 3 required tuples; after every call: events, return value, the four listings, utility '
                 'queries, underlying registries, rebuild probe against a list-based reference; distinct = histories')
     ctx.bounds = 'history<=8'
